@@ -221,7 +221,7 @@ def write_baseline():
     C.load_all()
     out = {}
     for fid, con in sorted(C.CONTRACTS.items()):
-        if con.trusted:
+        if con.trusted or con.bounded_only:
             continue
         rec, eng, res = verify_contract(fid, "quick", 10)
         out[fid] = dict(ast=rec["ast_hash"], proved=sorted(o for o, v in rec["obligations"].items() if v["status"] == "proved"),
@@ -271,7 +271,9 @@ def run_property(prop, tier, seed, t0):
     assumptions = set(spec.get("assumptions", []))
     errors = []
 
-    proof_ids = [fid for fid, c in C.CONTRACTS.items() if prop in c.serves and not c.trusted]
+    proof_ids = [fid for fid, c in C.CONTRACTS.items() if prop in c.serves and not c.trusted and not c.bounded_only]
+    spec = dict(spec)
+    spec["bounded"] = list(spec.get("bounded", [])) + [fid for fid, c in C.CONTRACTS.items() if prop in c.serves and c.bounded_only]
     for fid in sorted(proof_ids):
         rec, eng, res = verify_contract(fid, tier, timeout_s)
         functions.append(rec)
